@@ -1,6 +1,6 @@
 SPECIFICATION Spec
 CONSTANTS
-  N = 3
+  N = 4
   BigN = {98, 99, 100, 101, 150}
 INVARIANTS TypeOK CountsCapped NoGreaseHashed SortedB SortedC
 PROPERTIES Invariance
